@@ -803,6 +803,42 @@ def cycle_stationary(cyc, logu, laws):
     return None
 
 
+def cycle_mixture(cuqi, impl, spec, eps, max_depth, cyc, rng):
+    """The step over the slice variable on a closed orbit (Props/C08_Finite.v on the implementation).  One representative
+    level per class of slice levels (below every state; between two consecutive Hamiltonian values), random positive masses
+    lambda_j, pi(s) = sum_j lambda_j [s in slice_j]: (1) inside a class the enumerated kernel of the real sampler does not
+    depend on the level (midpoint vs the upper end of the class, where log u = H exactly), (2) every class leaves the
+    uniform distribution on its slice invariant, (3) the mass arriving at every position under the mixture is pi of it."""
+    hs = sorted(set(c[3] for c in cyc))
+    reps = [(hs[0] - 1, hs[0])] + [((a + b) / 2, b) for a, b in zip(hs, hs[1:])]
+    lam = [Fraction(rng.randint(1, 16), 8) for _ in reps]
+    flow, pi = {}, {}
+    for (t, t_end), l_ in zip(reps, lam):
+        if not all(frac(float(v)) == v for v in (t, t_end)):
+            return None
+        laws = cycle_kernel(cuqi, impl, spec, eps, max_depth, cyc, t)
+        laws_end = cycle_kernel(cuqi, impl, spec, eps, max_depth, cyc, t_end)
+        if laws != laws_end:
+            i = [i_ for i_ in laws if laws[i_] != laws_end.get(i_)][0]
+            return ("the kernel of the real sampler changes inside one class of slice levels: from state %d of the closed orbit, log u = %s gives %s, log u = %s "
+                    "(same states in the slice) gives %s" % (i, float(t), {str([float(v) for v in k_]): str(w) for k_, w in laws[i].items()}, float(t_end),
+                                                             {str([float(v) for v in k_]): str(w) for k_, w in laws_end.get(i, {}).items()}))
+        d = cycle_stationary(cyc, t, laws)
+        if d:
+            return "slice level %s: %s" % (float(t), d)
+        for (x, r, _, H) in cyc:
+            if H >= t:
+                pi[tuple(x)] = pi.get(tuple(x), 0) + l_
+        for i, law in laws.items():
+            for pt, w in law.items():
+                flow[pt] = flow.get(pt, 0) + l_ * w
+    for pt in sorted(set(pi) | set(flow)):
+        if pi.get(pt, 0) != flow.get(pt, 0):
+            return ("layer-cake mixture over %d classes of slice levels with masses %s: the mass arriving at position %s is %s, pi of it is %s"
+                    % (len(reps), [str(v) for v in lam], [float(v) for v in pt], flow.get(pt, 0), pi.get(pt, 0)))
+    return None
+
+
 def gen_cycle(rng, cfg_idx, slice_kind, long_for=None):
     """a closed orbit of the period of the configuration and a slice level: below every state / cutting the orbit / exactly
     on a state.  long_for = (cuqi, max_depth): among 12 starts take the one on which a scripted transition of the experimental
@@ -891,6 +927,18 @@ def cycle_cases(ctx, rng, cuqi, state, cases):
             checked += 1
             cases.append(Case(expr="true", meta=base, cell=cellp + "/stationarity", kind="DECISION", impl_fail=d,
                               signature="NUTS.%s.cycle_stationarity" % impl if d else ""))
+            if cfg_idx % 3 == 0 and md <= 2 and len(cyc) <= 6:
+                mrng = random.Random(1000 * cfg_idx + len(cyc))      # masses fixed by the plan entry (replayable from the meta)
+                try:
+                    dm = cycle_mixture(cuqi, impl, spec, eps, md, cyc, mrng)
+                except TooManyRuns:
+                    dm = None
+                except Exception as ex:
+                    dm = "kernel enumeration on a closed orbit crashed: %r" % ex
+                mm = dict(base)
+                mm.update({"mixture": True, "mass_seed": 1000 * cfg_idx + len(cyc)})
+                cases.append(Case(expr="true", meta=mm, cell="%s/cycle/N%d/md%d/all-levels/mixture" % (impl, len(cyc), md), kind="DECISION", impl_fail=dm,
+                                  signature="NUTS.%s.cycle_stationarity" % impl if dm else ""))
             for i, law in sorted(laws.items()):
                 x, r, _, H = cyc[i]
                 obs = clist(["(%s, %s)" % (cqvec([float(v) for v in pt]), cq(w)) for pt, w in sorted(law.items())])
@@ -1570,6 +1618,8 @@ def cycle_replay(cuqi, m):
     cyc = exact_cycle(spec["prec"], m["eps"], m["x0"], m["z"])
     if cyc is None:
         return None
+    if m.get("mixture"):
+        return cycle_mixture(cuqi, m["impl"], spec, m["eps"], m["max_depth"], cyc, random.Random(m["mass_seed"]))
     laws = cycle_kernel(cuqi, m["impl"], spec, m["eps"], m["max_depth"], cyc, frac(m["logu"]))
     return cycle_stationary(cyc, frac(m["logu"]), laws)
 
@@ -1702,6 +1752,9 @@ def replay(ctx, meta):
             print("  enumerated law of the real sampler from state %d:" % i, {str([float(v) for v in k_]): str(w) for k_, w in sorted(law.items())})
         print("invariance of the uniform distribution on the in-slice states of the closed orbit under the real sampler:",
               cycle_stationary(cyc, frac(m["logu"]), laws) or "holds")
+        if m.get("mixture"):
+            print("layer-cake mixture over all classes of slice levels:",
+                  cycle_mixture(cuqi, m["impl"], spec, m["eps"], m["max_depth"], cyc, random.Random(m["mass_seed"])) or "pi is invariant")
         return 0
     if m.get("orbit"):
         print("stationarity of the counting measure on the orbit under the real sampler:",
